@@ -256,7 +256,8 @@ Fixpoint has_call (e : expr) {struct e} : bool :=
   | EUse2 a b | EConcat a b | EAnd a b => has_call a || has_call b
   | EBuild _ l => has_call_xs l
   | ECall _ _ | EExt _ _ => true
-  | EFalls c a b => has_call c || has_call a || has_call b
+  | EFalls _ _ _ => true     (* the decision is answered by the oracle: in the programs the model is compared with that
+                                is a call (the tape reader `nimm`), which callFinder finds *)
   end
 with has_call_xs (l : exprs) {struct l} : bool :=
   match l with XNil => false | XCons e r => has_call e || has_call_xs r end.
